@@ -42,60 +42,67 @@ SubKeyVal(k) == 1000 + (CHOOSE i \in DOMAIN SubKeySeq : SubKeySeq[i] = k)
 RegValChoices(k) == IF ValMode = "keyed" THEN {RegKeyVal(k)} ELSE Vals
 SubValChoices(k) == IF ValMode = "keyed" THEN {SubKeyVal(k)} ELSE Vals
 
+\* The depth bound is a guard of every action (not a CONSTRAINT): TLC then
+\* never generates the out-of-bound frontier, whose states would otherwise be
+\* re-generated -- and re-dumped -- once per incoming transition.
+DepthOK == TLCGet("level") < MaxDepth
+OnM(m) == m \in Muts /\ DepthOK
+OnQ(q) == q \in Queries /\ DepthOK
+
 Init == /\ InitReg(InitSBases, InitRBases)
         /\ act = [op |-> "init"]
 
 Next ==
     \/ \E g \in Regs, k \in RegKeys : \E v \in RegValChoices(k) :
-          /\ "reg" \in Muts /\ Live < MaxLive
+          /\ OnM("reg") /\ Live < MaxLive
           /\ Register(g, k[1], k[2], k[3], v)
           /\ act' = [op |-> "register", g |-> g, req |-> k[1],
                      prov |-> k[2], name |-> k[3], val |-> v]
     \/ \E g \in Regs, k \in RegKeys : \E v \in RegValChoices(k) :
-          /\ "regsame" \in Muts
+          /\ OnM("regsame")
           /\ RegisterSame(g, k[1], k[2], k[3], v)
           /\ act' = [op |-> "register", g |-> g, req |-> k[1],
                      prov |-> k[2], name |-> k[3], val |-> v]
     \/ \E g \in Regs, k \in RegKeys, v \in {NONE} \cup
              (IF ValMode = "any" THEN Vals ELSE {}) :
-          /\ "unreg" \in Muts
+          /\ OnM("unreg")
           /\ (ValMode = "keyed" => Find(regs[g], k[1], k[2], k[3]) # {})
           /\ Unregister(g, k[1], k[2], k[3], v)
           /\ act' = [op |-> "unregister", g |-> g, req |-> k[1],
                      prov |-> k[2], name |-> k[3], val |-> v]
     \/ \E g \in Regs, k \in SubKeys : \E v \in SubValChoices(k) :
-          /\ "sub" \in Muts /\ Live < MaxLive
+          /\ OnM("sub") /\ Live < MaxLive
           /\ Subscribe(g, k[1], k[2], v)
           /\ act' = [op |-> "subscribe", g |-> g, req |-> k[1],
                      prov |-> k[2], val |-> v]
     \/ \E g \in Regs, k \in SubKeys, v \in {NONE} \cup
              (IF ValMode = "any" THEN Vals ELSE {}) :
-          /\ "unsub" \in Muts
+          /\ OnM("unsub")
           /\ (ValMode = "keyed" => SFind(subs[g], k[1], k[2]) # {})
           /\ Unsubscribe(g, k[1], k[2], v)
           /\ act' = [op |-> "unsubscribe", g |-> g, req |-> k[1],
                      prov |-> k[2], val |-> v]
     \/ \E g \in Regs :
-          /\ "rebuild" \in Muts
+          /\ OnM("rebuild")
           /\ Rebuild(g)
           /\ act' = [op |-> "rebuild", g |-> g]
     \/ \E c \in RBaseChoices :
-          /\ "regbases" \in Muts
+          /\ OnM("regbases")
           /\ SetRegBases(c[1], c[2])
           /\ act' = [op |-> "setRegBases", g |-> c[1], nb |-> c[2]]
     \/ \E c \in SBaseChoices :
-          /\ "specbases" \in Muts
+          /\ OnM("specbases")
           /\ SetSpecBases(c[1], c[2])
           /\ act' = [op |-> "setSpecBases", s |-> c[1], nb |-> c[2]]
     \/ \E g \in Regs, k \in LookKeys, nm \in Names :
-          /\ "lookup" \in Queries
+          /\ OnQ("lookup")
           /\ k[2] # PNone
           /\ QLookup(g, k[1], k[2], nm)
           /\ act' = [op |-> "lookup", g |-> g, req |-> k[1],
                      prov |-> k[2], name |-> nm,
                      adm |-> Admissible(g, k[1], k[2], nm)]
     \/ \E g \in Regs, k \in LookKeys :
-          /\ "lookupAll" \in Queries
+          /\ OnQ("lookupAll")
           /\ k[2] # PNone
           /\ QLookupAll(g, k[1], k[2])
           /\ act' = [op |-> "lookupAll", g |-> g, req |-> k[1],
@@ -103,7 +110,7 @@ Next ==
                      adm |-> [nm \in AllNames(g, k[1], k[2]) |->
                                  Admissible(g, k[1], k[2], nm)]]
     \/ \E g \in Regs, k \in LookKeys :
-          /\ "subs" \in Queries
+          /\ OnQ("subs")
           /\ QSubs(g, k[1], k[2])
           /\ act' = [op |-> "subscriptions", g |-> g, req |-> k[1],
                      prov |-> k[2],
